@@ -20,7 +20,7 @@
      deleted nor registered again and — when x (exclusive) — nobody registered v again. *)
 From Coq Require Import List ZArith Bool Permutation Lia.
 From GZgen Require Import C13Consts.
-From GZ Require Import C13.Model C13.Proofs C13.ProofsB C13.ProofsC C13.ProofsD C13.ProofsE C13.ProofsF C13.ProofsG C13.GenProofs.
+From GZ Require Import C13.Model C13.Proofs C13.ProofsB C13.ProofsC C13.ProofsD C13.ProofsE C13.ProofsF C13.ProofsG C13.ProofsH C13.GenProofs.
 Import ListNotations.
 Open Scope Z_scope.
 
@@ -125,6 +125,30 @@ Theorem subscriber_view_is_live_values_of_its_calls : forall xs evs i x log,
             forall v, In v (c_view c) <-> live x log v.
 Proof. exact listener_views_live. Qed.
 Print Assumptions subscriber_view_is_live_values_of_its_calls.
+
+(* The listener set of a watcher changing WHILE the watcher dispatches a call (handleWatchEvents
+   / handleChanges range over a snapshot of watcher.listeners; [acts i] = the Unmonitor / Monitor
+   calls made while the i-th callback runs: re-entrantly from inside it - Subscriber.Close in
+   one's own change listener - or by other goroutines): every listener that is registered for
+   the whole duration of the dispatch is called exactly once and is still registered afterwards,
+   whatever joins or leaves meanwhile; a listener that was not registered at the start is not
+   called by this dispatch (a joiner is served by Monitor's replay). *)
+Theorem dispatch_reaches_every_staying_listener_once : forall ls acts l, NoDup ls -> In l ls ->
+  (forall i, forallb (fun a => negb (leaves l a)) (acts i) = true) ->
+  count_occ Z.eq_dec (fst (dispatch_copy ls acts)) l = 1%nat /\ In l (snd (dispatch_copy ls acts)).
+Proof. exact dispatch_copy_stayers. Qed.
+Print Assumptions dispatch_reaches_every_staying_listener_once.
+
+Theorem dispatch_calls_exactly_the_listeners_of_its_start : forall ls acts l, NoDup ls ->
+  (In l ls -> count_occ Z.eq_dec (fst (dispatch_copy ls acts)) l = 1%nat) /\
+  (~ In l ls -> count_occ Z.eq_dec (fst (dispatch_copy ls acts)) l = 0%nat).
+Proof. exact dispatch_copy_exactly_once. Qed.
+Print Assumptions dispatch_calls_exactly_the_listeners_of_its_start.
+
+(* non-vacuity: listeners 1 2 3; during the callback of 1, listener 1 closes itself and 4 joins *)
+Example ex_dispatch :
+  dispatch_copy [1; 2; 3] (fun i => match i with O => [MLeave 1; MJoin 4] | _ => [] end) = ([1; 2; 3], [2; 3; 4]).
+Proof. reflexivity. Qed.
 
 (* Notifications.  Each event makes exactly one round of listener calls per UpdateListener
    call it emits (PUT / DELETE: always one, also when nothing changes — harmless
